@@ -287,6 +287,8 @@ def run(ctx: Ctx) -> None:
                         outs.append(o)
         ctx.extra["bounded_exhaustive_cases"] = k
     ctx.compare("PoolBounds", cases, outs, what="advertised / enforced bounds, request answers, min powers")
+    from . import powerpath  # full-stack stage: the same property through the public pool API (real actors)
+    powerpath.run_stage(ctx, {"C17-accept"}, n_quick=40, n_thorough=500)
 
 
 def replay(ctx: Ctx, data: dict) -> None:
